@@ -46,6 +46,7 @@ def run(ctx, rep):
     # what an assignment instruction writes into a list / map slot is a value, never a view of another slot (shared rule with C08)
     from props import C08 as _c08
     _c08.no_view_stored(F, rep, ctx, rule="C13.no-view-stored")
+    map_entries_are_values(F, rep)
     if _casts is not None:
         _casts.run_c13(F, rep)
 
@@ -179,6 +180,26 @@ def element_store(F, rep):
                "ok" if through and slot_ok else "violated",
                "store of the parameter on every Ok path=%s slot from the container=%s" % (through, slot_ok), hs.span, fn=hs.path,
                key="C13.element-store|HeapPrimitive::set|%s" % arm)
+
+
+def map_entries_are_values(F, rep, rule="C13.no-view-stored"):
+    """What a map holds is values: GcMap::insert hands HashMap::insert a key and a value that each went through move_out_of_heap_primitive.  Its callers
+    do not all resolve first - `fast_map_insert` (map literals) pops the value straight off the operand stack, where `xs[0]` leaves a *view* of the list
+    slot - so an insert that trusts them stores a view: `m = map[str, int]{"a": xs[0]}` then follows `xs[0] = 10`."""
+    g = F.fn("bytecode::variables::primitive::GcMap::insert")
+    if g is None:
+        raise AnchorMissing("GcMap::insert")
+    ins = g.calls_to("std::collections::hash::map::HashMap::insert")
+    if len(ins) != 1 or len(ins[0].args) < 3:
+        raise AnchorMissing("HashMap::insert in GcMap::insert")
+    T = rules.TRANSPARENT | {rules.TRY_BRANCH}
+    for what, ai in (("key", 1), ("value", 2)):
+        l = op_local(ins[0].args[ai])
+        oc = rules.origin_calls(g, l, transparent=T) if l is not None else []
+        ok = bool(oc) and all(c.matches("bytecode::variables::primitive::Primitive::move_out_of_heap_primitive") for c in oc)
+        rep.ob(rule, "GcMap::insert stores the %s as a value (copied out of any field / element view)" % what, "ok" if ok else "violated",
+               "" if ok else "the %s reaches HashMap::insert from %s: a map literal whose value is an element read keeps following the list slot"
+               % (what, sorted({mir.short(c.callee()) for c in oc}) or "the parameter as it is"), ins[0].span, fn=g.path, key="%s|GcMap::insert|%s" % (rule, what))
 
 
 MAP_DELEGATION = {"insert": "insert", "get": "get", "len": "len", "contains_key": "contains_key", "keys": "keys", "values": "values", "pairs": "iter",
